@@ -15,7 +15,7 @@ import genlib as G
 A = "routee-compass-core/src/algorithm/search/"
 OBLIGATIONS = ["run_a_star", "advance_search", "get_last_traversed_edge_id", "tree_key_vertex_id", "terminal_vertex_id",
                "lemma_no_revisit", "lemma_iteration_limit", "lemma_size_limit", "lemma_route_edges_permitted", "lemma_closed_step", "lemma_reachable_is_labelled", "lemma_no_path_means_unreachable",
-               "lemma_path_prefix", "lemma_label_le_path", "lemma_chain_cost_le_label", "lemma_tree_route_least"]
+               "lemma_path_prefix", "lemma_label_le_path", "lemma_chain_cost_le_label", "lemma_tree_route_least", "lemma_up", "lemma_parents_reach_source"]
 MUST_FAIL = ["vacuity_probe"]
 
 HEAD = """#![allow(unused_imports, unused_variables, dead_code, unused_mut, unused_parens, unused_assignments)]
@@ -552,6 +552,64 @@ pub proof fn lemma_tree_route_least(si: &SearchInstance, d: Direction, source: V
     lemma_label_le_path(si, d, source, r.tree@, labels, expanded, refused, path, idx);
     lemma_chain_cost_le_label(source, r.tree@, labels, c);
 }
+
+// ===== C01 "following parents from any entry reaches the search origin" (existence of the chain; `lemma_no_revisit` says it never revisits a vertex) =====
+/// the chain of parent links from k, at most n steps long: it stops at the first vertex that is not a tree entry
+pub open spec fn up(t: Map<VertexId, SearchTreeBranch>, k: VertexId, n: nat) -> Seq<VertexId>
+    decreases n
+{
+    if n == 0 || !t.contains_key(k) { seq![k] } else { seq![k] + up(t, t[k].terminal_vertex, (n - 1) as nat) }
+}
+pub proof fn lemma_up(t: Map<VertexId, SearchTreeBranch>, k: VertexId, n: nat)
+    ensures up(t, k, n).len() >= 1, up(t, k, n)[0] == k, parent_chain(t, up(t, k, n)), up(t, k, n).len() <= n + 1,
+            !t.contains_key(up(t, k, n).last()) || up(t, k, n).len() == n + 1,
+    decreases n
+{
+    let c = up(t, k, n);
+    if n == 0 || !t.contains_key(k) { assert(c =~= seq![k]); }
+    else {
+        let p = t[k].terminal_vertex;
+        let c2 = up(t, p, (n - 1) as nat);
+        lemma_up(t, p, (n - 1) as nat);
+        assert(c =~= seq![k] + c2);
+        assert(c.last() == c2.last());
+        assert forall|i: int| 0 <= i < c.len() - 1 implies #[trigger] t.contains_key(c[i]) && t[c[i]].terminal_vertex == c[i + 1] by {
+            if i == 0 { assert(c[1] == c2[0]); } else { assert(c[i] == c2[i - 1]); assert(c[i + 1] == c2[i]); assert(t.contains_key(c2[i - 1])); }
+        }
+    }
+}
+/// C01: from EVERY tree entry a chain of parent links leads to the search origin (pigeonhole: a chain that is still inside the tree after |tree| steps would name |tree| + 1
+/// pairwise distinct entries -- distinct because the labels strictly decrease along it)
+pub proof fn lemma_parents_reach_source(source: VertexId, t: Map<VertexId, SearchTreeBranch>, labels: Map<VertexId, Cost>, k: VertexId)
+    requires dom_ok(source, t, labels), pot_ok(source, t, labels), t.contains_key(k), t.dom().finite()
+    ensures exists|c: Seq<VertexId>| #[trigger] parent_chain(t, c) && c[0] == k && c.last() == source
+{
+    let n = t.dom().len();
+    let c = up(t, k, n);
+    lemma_up(t, k, n);
+    if t.contains_key(c.last()) {
+        // all n + 1 vertices of the chain are entries, and they are pairwise distinct: impossible in a tree of n entries
+        assert(c.len() == n + 1);
+        assert(n >= 1) by { if n == 0 { assert(t.dom() =~= Set::<VertexId>::empty()); assert(t.dom().contains(k)); } }
+        lemma_no_revisit(source, t, labels, c);
+        assert(c.no_duplicates());
+        c.unique_seq_to_set();
+        assert(c.to_set().subset_of(t.dom())) by {
+            assert forall|v: VertexId| c.to_set().contains(v) implies t.dom().contains(v) by {
+                let i = choose|i: int| 0 <= i < c.len() && c[i] == v;
+                if i < c.len() - 1 { assert(t.contains_key(c[i])); } else { assert(c[i] == c.last()); }
+            }
+        }
+        vstd::set_lib::lemma_len_subset(c.to_set(), t.dom());
+        assert(false);
+    }
+    // the chain left the tree: its last vertex is a parent (labelled) that is not an entry, i.e. the origin
+    assert(c.len() >= 2) by { if c.len() == 1 { assert(c.last() == c[0]); } }
+    let m = c.len() as int;
+    assert(t.contains_key(c[m - 2]) && t[c[m - 2]].terminal_vertex == c[m - 1]);
+    assert(labels.contains_key(c[m - 1]));
+    assert(c.last() == c[m - 1]);
+}
 """
 
 
@@ -632,6 +690,8 @@ def build(x):
     ra.add_spec("""    ensures
         // C01 / C04.7 / C05 / C10.3 on success
         res matches Ok(r) ==> search_post(si, *direction, source, target, r),
+        // (the returned tree is a finite map: premise of lemma_parents_reach_source)
+        res matches Ok(r) ==> r.tree@.dom().finite(),
         // C02 / C05 (least cost): a tree search on an instance whose edge costs do not depend on how the edge was reached returns Bellman potentials
         res matches Ok(r) ==> (target is None && cost_local(si) ==> least_post(si, *direction, source, r)),
         // C05 / C10: 'no path' names this query; a limit failure is returned as such
